@@ -67,6 +67,8 @@ type External interface {
 	// Enabled returns opaque ids of actions that may fire now, in a deterministic order.
 	Enabled() []int
 	Fire(id int)
+	// NextDeadline: simulated time from now until some action becomes enabled by itself (client timeout, delayed op).
+	NextDeadline() (time.Duration, bool)
 }
 
 // World is one simulated process group inside one synctest bubble.
@@ -86,6 +88,10 @@ type World struct {
 	Trace   []string // kept only when KeepTrace
 	KeepTrace bool
 	Livelock bool
+	// CrashReq is set by CrashNow (a task asking for the process to die at this exact point).
+	CrashReq bool
+	// CrashAtStep makes Run return RunCrash when the step counter reaches it (0 = never).
+	CrashAtStep int
 	// Probe counters ("rare condition hit")
 	Probes map[string]int
 	// OrderKey gives a stable, replayable ordering key for map keys that are pointers.
@@ -322,14 +328,26 @@ func (w *World) release(t *Task) {
 	t.gate <- struct{}{}
 }
 
+// RunResult says why Run returned.
+type RunResult int
+
+const (
+	RunQuiescent RunResult = iota // idle for the settle period
+	RunStopped                    // stop() returned true
+	RunLivelock                   // step budget exhausted
+	RunCrash                      // a crash point fired (CrashNow or CrashAtStep)
+)
+
 // Run drives the world until it has been idle (nothing runnable, no external action enabled) for
 // `settle` of simulated time, or until stop() returns true (checked only when nothing is runnable).
-// It returns false if the step budget was exhausted (livelock).
-func (w *World) Run(settle time.Duration, stop func() bool) bool {
+func (w *World) Run(settle time.Duration, stop func() bool) RunResult {
 	idleSince := time.Now()
 	for {
 		synctest.Wait()
 		w.cur = nil
+		if w.CrashReq {
+			return RunCrash
+		}
 		cand, running := w.runnable()
 		if running {
 			// The token holder is durably blocked inside uninstrumented code (e.g. time.Sleep in a library).
@@ -342,11 +360,19 @@ func (w *World) Run(settle time.Duration, stop func() bool) bool {
 		}
 		if len(cand)+len(ext) == 0 {
 			if stop != nil && stop() {
-				return true
+				return RunStopped
 			}
 			rem := settle - time.Since(idleSince)
 			if rem <= 0 {
-				return true
+				return RunQuiescent
+			}
+			if w.Ext != nil {
+				if d, ok := w.Ext.NextDeadline(); ok && d < rem {
+					if d <= 0 {
+						d = time.Millisecond
+					}
+					rem = d
+				}
 			}
 			tm := time.NewTimer(rem)
 			select {
@@ -359,7 +385,11 @@ func (w *World) Run(settle time.Duration, stop func() bool) bool {
 		w.Steps++
 		if w.Steps > w.MaxStep {
 			w.Livelock = true
-			return false
+			return RunLivelock
+		}
+		if w.CrashAtStep > 0 && w.Steps >= w.CrashAtStep {
+			w.CrashAtStep = 0
+			return RunCrash
 		}
 		if w.Parallel {
 			w.parallelRound(cand, ext)
@@ -402,9 +432,28 @@ func (w *World) parallelRound(cand []*Task, ext []int) {
 }
 
 // Advance lets simulated time pass by d with the world running (timers fire, tasks run).
-func (w *World) Advance(d time.Duration) bool {
+func (w *World) Advance(d time.Duration) RunResult {
 	deadline := time.Now().Add(d)
-	return w.Run(d, func() bool { return !time.Now().Before(deadline) })
+	for {
+		rem := time.Until(deadline)
+		if rem <= 0 {
+			return RunStopped
+		}
+		if r := w.Run(rem, func() bool { return !time.Now().Before(deadline) }); r != RunQuiescent {
+			return r
+		}
+	}
+}
+
+// CrashNow is called by a task (fault hook) to make the process die at exactly this point:
+// the task never runs again and Run returns RunCrash.
+func CrashNow() {
+	t := cur()
+	if t == nil {
+		return
+	}
+	t.w.CrashReq = true
+	t.waitFor(&t.w.CrashReq, "crash")
 }
 
 // KillAll is the simulated process crash / end-of-run teardown: every task is made to exit, one at a time.
